@@ -8,11 +8,12 @@ SPEC = {
         {"name": "c19wb-histogram", "pkg": "./vdaf/prio3/histogram", "run": "^TestVerifC19", "whitebox": True, "shards": {"quick": 1, "thorough": 4}},
         {"name": "c19wb-mhcv", "pkg": "./vdaf/prio3/mhcv", "run": "^TestVerifC19", "whitebox": True, "shards": {"quick": 1, "thorough": 4}},
     ],
-    "rule": "batch case = (instance in {Count, Sum, SumVec, Histogram, MultihotCountVec}, admissible parameters [Sum bound from {1,2,255,2^32,2^62,2^63-1}, 2^k-1/2^k/2^k+1 or random < 2^63; "
-            "SumVec length x bits (1..64) x chunk; Histogram length x chunk; MultihotCountVec length x max weight x chunk; chunk lengths 1, sqrt, dividing, non-dividing, = total, > total], "
+    "rule": "batch case = (instance in {Count, Sum, SumVec, Histogram, MultihotCountVec}, admissible parameters [Sum bound from {0,1,2,255,2^32,2^62,2^63-1}, 2^k-1/2^k/2^k+1 or random < 2^63; "
+            "SumVec length x bits (0..64) x chunk; Histogram length x chunk; MultihotCountVec length x max weight (0..length) x chunk; chunk lengths 1, sqrt, dividing, non-dividing, = total, > total], "
             "context, 2/3/16/4..15 aggregators (255/254/128/17 in the thorough tier), verify key, 1..8 valid measurements incl. the extremes with edge-biased nonces and sharding randomness, "
             "0..3 altered reports and 0..1 invalid measurements interleaved with the valid ones), every message crossing the aggregator boundary in marshalled form; "
             "constructor case = (instance, one of the three named degenerate arguments [chunk length 0, 0 or 1 aggregators, Sum bound >= 2^63], otherwise admissible parameters); "
+            "deterministic points (both tiers): one honest report per instance with 127/128/129/200/255 aggregators and RAND_SIZE = 32*SHARES (x2 with joint randomness); one honest report with 2 aggregators at the smallest value of every parameter (incl. the zero-bit instances), at every Sum bit width 1..63 and at 2^j-1 and 2^j gadget calls for j = 1..11 (NTT sizes up to 2^13) for SumVec, Histogram and MultihotCountVec. "
             "white-box case = (instance parameters, valid encoded measurement, 0 or 1 invalidating edit, 1/2/3/16 shares) proved, shared, queried and decided directly on the FLP. "
             "non-trivial = batch with more than two aggregators or an extreme measurement; an altered report or invalid measurement that was evaluated (and refused); a degenerate constructor call; a white-box FLP decision. "
             "distinct by FNV-64 of (sub-check, instance description, measurements, nonces, randomness, verify key, alteration label)",
